@@ -308,11 +308,75 @@ def _run_families(rep: Report, tier: str, wd: Path) -> int:
     return n
 
 
+def _class_independence(rep: Report, tier: str) -> int:
+    """'For every grid': the moments depend on the grid only through its points and weights.
+    Every grid class (whatever way it stores its points) must return what the plain Grid built
+    from .points/.weights returns - and the plain Grid is what the specification judges above."""
+    import warnings
+    from grid.angular import AngularGrid
+    from grid.atomgrid import AtomGrid
+    from grid.basegrid import Grid, LocalGrid, OneDGrid
+    from grid.becke import BeckeWeights
+    from grid.cubic import Tensor1DGrids, UniformGrid
+    from grid.molgrid import MolGrid
+    from grid.periodicgrid import PeriodicGrid
+    rng = np.random.default_rng(rep.seed + 14)
+    n = 0
+    with warnings.catch_warnings():
+        warnings.simplefilter("ignore")
+        rg = OneDGrid(np.array([0.4, 1.1, 2.0]), np.array([0.3, 0.5, 0.7]), (0, np.inf))
+        od = lambda k, s: OneDGrid(np.linspace(-1, 1, k) * s + 0.2, np.ones(k) * 2 * s / k, (-s + 0.2, s + 0.2))  # noqa: E731
+        makers = {
+            "AtomGrid[centre,rotate]": lambda: AtomGrid(rg, degrees=[3, 5, 3], center=np.array([0.3, -0.2, 0.5]), rotate=17),
+            "AtomGrid[origin]": lambda: AtomGrid(rg, degrees=[5], center=np.zeros(3)),
+            "MolGrid": lambda: MolGrid(np.array([1, 8]), [AtomGrid(rg, degrees=[3], center=np.array([0.0, 0.1, -0.7])),
+                                                          AtomGrid(rg, degrees=[3], center=np.array([0.2, 0.0, 0.9]))], BeckeWeights(), store=True),
+            "UniformGrid": lambda: UniformGrid(np.array([-0.5, 0.1, 0.3]), np.array([[0.5, 0, 0], [0.1, 0.4, 0], [0, 0.2, 0.3]]), np.array([3, 2, 3])),
+            "Tensor1DGrids": lambda: Tensor1DGrids(od(3, 1.0), od(2, 0.5), od(3, 0.7)),
+            "AngularGrid": lambda: AngularGrid(degree=5),
+            "LocalGrid": lambda: LocalGrid(rng.uniform(-1, 1, (7, 3)), rng.uniform(0.1, 1, 7), np.array([0.1, 0.2, 0.3]), np.arange(7)),
+            "PeriodicGrid": lambda: PeriodicGrid(rng.uniform(0, 1, (7, 3)), rng.uniform(0.1, 1, 7), np.array([[1.5, 0, 0], [0, 1.2, 0.1]])),
+            "Tensor1DGrids[2D]": lambda: Tensor1DGrids(od(3, 1.0), od(4, 0.5)),
+            "OneDGrid": lambda: od(5, 1.0),
+        }
+        for name, mk in makers.items():
+            try:
+                g = mk()
+                pts, wts = np.array(g.points, dtype=float), np.array(g.weights, dtype=float)
+                ref = Grid(pts.copy() if pts.ndim == 2 else pts.reshape(-1, 1).copy(), wts.copy())
+                dim = ref.points.shape[1]
+                f = np.cos(np.arange(len(wts)) * 0.7) + 1.5
+                centers = np.vstack([np.zeros(dim), np.linspace(0.3, -0.4, dim)])
+                types = ("cartesian", "radial", "pure", "pure-radial") if dim == 3 else ("cartesian", "radial")
+            except Exception as e:  # noqa: BLE001
+                rep.violation(f"class-independence:{name}:build", f"fixture of {name} raised {type(e).__name__}: {e}")
+                continue
+            for typ in types:
+                n += 1
+                rep.evaluated(1, ("class-independence", name, typ))
+                try:
+                    got, o1 = g.moments(3, centers, f, type_mom=typ, return_orders=True)
+                    want, o2 = ref.moments(3, centers, f, type_mom=typ, return_orders=True)
+                except Exception as e:  # noqa: BLE001
+                    rep.violation(f"class-independence:{name}:{typ}:raises", f"{name}.moments(type_mom={typ!r}) raised {type(e).__name__}: {e}")
+                    continue
+                scale = float(np.max(np.abs(want))) + 1.0
+                err = float(np.max(np.abs(np.asarray(got) - np.asarray(want)))) if np.shape(got) == np.shape(want) else float("inf")
+                _stat("class_independence_err_over_scale", err / scale if np.isfinite(err) else 0.0)
+                if not (err <= 1e-11 * scale and np.array_equal(o1, o2)):
+                    rep.violation(f"class-independence:{name}:{typ}",
+                                  f"{name}.moments(type_mom={typ!r}) differs from Grid(points, weights).moments on the same points "
+                                  f"and weights (max difference {err:.3g}, scale {scale:.3g})",
+                                  {"class": name, "type": typ, "centers": centers.tolist()})
+    return n
+
+
 def run(tier: str) -> int:
     rep = Report(PROP, tier, "model_checking")
     wd = tlc.scratch(f"{PROP}-{tier}")
     STATS.clear()
     n = _run_families(rep, tier, wd)
+    n += _class_independence(rep, tier)
     rep.set("traces_validated_against_impl", n)
     rep.set("exhaustive", True)
     rep.set("rule", "one case = one call of generate_orders_horton_order / Grid.moments / dipole_moment_of_molecule on a case "
